@@ -550,6 +550,24 @@ func calleeIdent(ce *ast.CallExpr) *ast.Ident {
 
 func unsuitableBody(fd *ast.FuncDecl, info *types.Info) string {
 	reason := ""
+	// recover() inside the literal of a top-level `defer func() { ... }()`: such a helper can be
+	// inlined into a `return helper(...)` (the defer is then registered in the caller, which
+	// returns at once - see expand)
+	recoverOK := map[*ast.Ident]bool{}
+	for _, st := range fd.Body.List {
+		if ds, ok := st.(*ast.DeferStmt); ok {
+			if fl, ok := ds.Call.Fun.(*ast.FuncLit); ok && len(ds.Call.Args) == 0 {
+				ast.Inspect(fl.Body, func(n ast.Node) bool {
+					if ce, ok := n.(*ast.CallExpr); ok {
+						if id, ok := ce.Fun.(*ast.Ident); ok && id.Name == "recover" {
+							recoverOK[id] = true
+						}
+					}
+					return true
+				})
+			}
+		}
+	}
 	var walk func(n ast.Node, inLit bool)
 	walk = func(n ast.Node, inLit bool) {
 		ast.Inspect(n, func(m ast.Node) bool {
@@ -566,7 +584,7 @@ func unsuitableBody(fd *ast.FuncDecl, info *types.Info) string {
 				}
 			case *ast.CallExpr:
 				if id, ok := x.Fun.(*ast.Ident); ok && id.Name == "recover" {
-					if _, isB := info.Uses[id].(*types.Builtin); isB {
+					if _, isB := info.Uses[id].(*types.Builtin); isB && !recoverOK[id] {
 						reason = "calls recover"
 					}
 				}
@@ -1266,6 +1284,14 @@ func (in *inliner) expand(ce *ast.CallExpr, g *types.Func, lhs []ast.Expr, tok t
 			continue
 		}
 		hasDefers = true
+		if fl, isLit := ds.Call.Fun.(*ast.FuncLit); isLit && callsRecover(fl) {
+			// a deferred recover must stay a defer: possible only where the helper's return is the
+			// caller's return (`return helper(...)`) - the caller then registers it
+			if ret == nil {
+				return keep("a deferred recover() in a call that is not `return helper(...)`")
+			}
+			continue
+		}
 		if !termDefers {
 			consume, terminal = nil, false
 		}
@@ -1899,4 +1925,17 @@ func simpleTopLevelDefer(fd *ast.FuncDecl, ds *ast.DeferStmt, info *types.Info) 
 		return ds.Call.Ellipsis == token.NoPos
 	}
 	return false
+}
+
+func callsRecover(fl *ast.FuncLit) bool {
+	found := false
+	ast.Inspect(fl.Body, func(n ast.Node) bool {
+		if ce, ok := n.(*ast.CallExpr); ok {
+			if id, ok := ce.Fun.(*ast.Ident); ok && id.Name == "recover" {
+				found = true
+			}
+		}
+		return true
+	})
+	return found
 }
